@@ -16,7 +16,8 @@ from . import _lp
 ID = 'C06'
 LEVEL = 'exploration'
 ENGINE = 'hypothesis (instances) + exhaustive enumeration of assignments per instance'
-RULE = ('case kind "checker": a two-sided instance; every assignment respecting upper quotas is '
+RULE = ('case kind "large": instance with up to 14 students/projects and 13 lecturers (two-digit ids) '
+        'and 8 drawn assignments; case kind "checker": a two-sided instance; every assignment respecting upper quotas is '
         'passed to Model.check_stability (counter checker_calls). case kind "lp": a -stab run '
         'whose stability_correct line is compared with the oracle. non-trivial = the instance '
         'has at least one stable and one unstable assignment (checker) / the run is Optimal '
@@ -29,14 +30,31 @@ ASSUMPTIONS = [
 ]
 
 
+LARGE = dict(n1=14, n2=14, n2min=9, n3=13, lmax=5)
+
+
 def budget(tier):
     return 8000 if tier == 'quick' else 60000
 
 
 @st.composite
 def _cases(draw, tier):
-    kind = 'lp' if pct(draw) < 15 else 'checker'
+    kind = 'lp' if pct(draw) < 15 else ('large' if pct(draw) < 12 else 'checker')
     salt = draw(strategies.salts)
+    if kind == 'checker' and pct(draw) < 25:
+        # a small instance embedded under sparse two-digit ids (1, 11, 12, 21 ...): all
+        # assignments of the real students are still enumerated
+        cls = draw(st.sampled_from(['generic', 'shared_tight', 'shared_tight', 'heavy_ties',
+                                    'zero_capacity', 'two_agent']))
+        inst = draw(strategies.instances(strategies.SIZES['tiny'], two_sided=True, cls=cls))
+        return {'kind': 'embedded', 'inst': inst, 'maps': draw(strategies.id_maps(inst))}
+    if kind == 'large':
+        # two-digit ids: assignments are drawn, not enumerated
+        inst = draw(strategies.instances(LARGE, two_sided=True, cls=draw(st.sampled_from(
+            ['generic', 'generic', 'shared_tight', 'heavy_ties', 'two_agent']))))
+        picks = [[draw(st.sampled_from(strategies._CH)) for _ in range(inst['n1'])]
+                 for _ in range(8)]
+        return {'kind': 'large', 'inst': inst, 'picks': picks}
     cls = draw(st.sampled_from(['generic', 'shared_tight', 'shared_tight', 'heavy_ties',
                                 'zero_capacity', 'zero_capacity', 'lower_quotas', 'two_agent',
                                 'more_lecturers']))
@@ -53,7 +71,11 @@ def strategy(tier):
 
 
 def describe(case):
-    d = {'kind': case['kind'], 'instance_file': refmodel.render(case['inst'])}
+    inst = case['inst']
+    if case['kind'] == 'embedded':
+        m = case['maps']
+        inst = strategies.embed(inst, m['smap'], m['pmap'], m['lmap'])[0]
+    d = {'kind': case['kind'], 'instance_file': refmodel.render(inst)}
     if 'opts' in case:
         d['argv'] = strategies.build_argv(case['opts'], '<file>', case['inst']['na'])
     return d
@@ -86,21 +108,53 @@ def _run_lp(case):
     return Result(True, labels)
 
 
+def _assignments(case, o):
+    """Assignments to enumerate (small) or to build from the drawn picks (large)."""
+    if case['kind'] == 'embedded':
+        small = refmodel.Oracle(case['inst'], True)
+        for M in small.assignments():
+            if small.respects_upper(M):
+                yield case['_lift'](M)
+        return
+    if case['kind'] != 'large':
+        for M in o.assignments():
+            if o.respects_upper(M):
+                yield M
+        return
+    I = o.I
+    for picks in case['picks']:
+        pc = [0] * o.n2
+        lc = [0] * o.n3
+        M = []
+        for i, r in enumerate(o.srank):
+            opts = [0] + [p for g in I['prefs'][i] for p in g]
+            p = opts[picks[i] % len(opts)]
+            if p and pc[p - 1] < I['puq'][p - 1] and lc[o.plec[p - 1] - 1] < I['luq'][o.plec[p - 1] - 1]:
+                pc[p - 1] += 1
+                lc[o.plec[p - 1] - 1] += 1
+                M.append(p)
+            else:
+                M.append(0)
+        yield tuple(M)
+
+
 def run_case(case):
     if case['kind'] == 'lp':
         return _run_lp(case)
     inst = case['inst']
+    if case['kind'] == 'embedded':
+        m = case['maps']
+        inst, lift = strategies.embed(case['inst'], m['smap'], m['pmap'], m['lmap'])
+        case = dict(case, _lift=lift)
     text = refmodel.render(inst)
     path = solverio.write_instance(text)
     argv = ['-f', path, '-na', str(inst['na']), '-twopl']
     model = solverio.make_solver(argv).model
     o = refmodel.Oracle(inst, True)
     nstable = nunstable = 0
-    labels = set(['kind=checker'])
+    labels = set(['kind=' + case['kind']])
     I = o.I
-    for M in o.assignments():
-        if not o.respects_upper(M):
-            continue
+    for M in _assignments(case, o):
         arg = []
         for i, p in enumerate(M):
             if p == 0:
